@@ -42,8 +42,8 @@ class Producer(c04.Pipe):
         badm = [(k, fd, who) for k, fd, who in ctx["map"].mutations if who not in ("io", "main")]
         if badm:
             v.append(("map-edited-by-worker", f"socket map mutated off the I/O thread: {badm[:3]}"))
-        if sock.closed and ch.total_outbufs_len > 0:
-            v.append(("output-accepted-after-teardown", f"{ch.total_outbufs_len} bytes were accepted into the buffers of a connection that is already torn down (never released)"))
+        if track.get("accepted_after_teardown"):
+            v.append(("output-accepted-after-teardown", f"write_soon() accepted {track['accepted_after_teardown']} bytes of application output for a connection that was already torn down (no ClientDisconnected)"))
         # nothing reordered, duplicated or corrupted
         out = bytes(sock.out)
         want = ref[0]
